@@ -156,3 +156,48 @@ def t_json_random():
         if ob["name"].endswith("log-of-positive") and z3.is_gt(ob["goal"]):
             ob["region"] = [ob["goal"].arg(0) != 0]       # known finding: the draw 0.0 (probability 2^-53) -- everything else must be proved
     return {"obligations": obl, "info": [info]}
+
+
+# ----------------------------------------------------------------------------- registries: unique ids / names, no double registration (C18)
+def _registry_sep(st, a, lst):
+    """The simulator's containers are pairwise distinct objects (each is created by its own `[]` / `{}` in
+    Simulator.__init__ and the group lists by their own `[]` in _add_market / _add_agent)."""
+    if lst == "sessions":
+        return []
+    sim = a["self"]; L = st.read(sim, lst).term
+    gname, nname = {"agents": ("agents_group_name2agent", "name2agent"), "markets": ("markets_group_name2market", "name2market")}[lst]
+    g = st.read(sim, gname); k = z3.Const("k_grp", z3.StringSort())
+    others = [st.read(sim, f).term for f in (("high_frequency_agents", "normal_frequency_agents") if lst == "agents" else ())]
+    return [("the registry list, the group lists and the dictionaries are distinct objects",
+             z3.And(*[L != o for o in others], g.term != st.read(sim, nname).term,
+                    z3.ForAll([k], z3.Implies(z3.Select(st.dict_dom(g), k), z3.Select(st.dict_val(g), k) != L))))]
+
+
+def registry_task(fname, param, lst, id_field, id_dict, name_dict, cls):
+    qual = "Simulator." + fname
+
+    def raises(st, a):
+        sim, x = a["self"], a[param]
+        return z3.Or(st.mem(st.read(sim, lst).term, x.term), st.dict_has(st.read(sim, id_dict), st.read(x, id_field)), st.dict_has(st.read(sim, name_dict), st.read(x, "name")))
+
+    def post(st0, st1, a, res):
+        sim, x = a["self"], a[param]
+        L = st0.read(sim, lst).term; y = z3.Const("y_reg", REF)
+        return [("C18 the entity is appended exactly once and becomes reachable by its id and by its name",
+                 z3.And(st1.read(sim, lst).term == L, st1.length(L) == st0.length(L) + 1, z3.ForAll([y], st1.mem(L, y) == z3.Or(st0.mem(L, y), y == x.term)),
+                        st1.dict_has(st1.read(sim, id_dict), st0.read(x, id_field)), st1.dict_get(st1.read(sim, id_dict), st0.read(x, id_field), check=False).term == x.term,
+                        st1.dict_has(st1.read(sim, name_dict), st0.read(x, "name")), st1.dict_get(st1.read(sim, name_dict), st0.read(x, "name"), check=False).term == x.term))]
+    spec = FSpec(qual, post=post, raises={"ValueError": raises}, props=("C18",), param_types={"group_name": ("opt", ("str",))},
+                 pre=lambda st, a: [("len >= 0", st.length(st.read(a["self"], lst).term) >= 0)] + _registry_sep(st, a, lst),
+                 modifies=lambda st, a: ["len", "mem", "el:Ref", "nodup", "heapok", "dd:Int_Ref", "dv:Int_Ref", "dd:String_Ref", "dv:String_Ref", ("f:Simulator.n_" + lst.rstrip("s") + "s", [a["self"].term])])
+
+    def build():
+        obl, info = spec.verify()
+        return {"obligations": obl, "info": [info]}
+    build.__doc__ = f"{fname}: duplicate object, id or name is a ValueError; otherwise registered once"
+    task(qual, props=["C18"], functions=[qual], replay="config")(build)
+
+
+registry_task("_add_market", "market", "markets", "market_id", "id2market", "name2market", "Market")
+registry_task("_add_agent", "agent", "agents", "agent_id", "id2agent", "name2agent", "Agent")
+registry_task("_add_session", "session", "sessions", "session_id", "id2session", "name2session", "Session")
